@@ -19,7 +19,7 @@ ASSUMPTIONS = ["'keeps the original description' is read as *contains* (Shuffle 
                "'-T none' is documented to return the same object and is excluded from 'returns a new formula'",
                "graph *modifiers* (add_random_missing_edges, split_random_edges) are documented to work in place and are not judged"]
 REQUIRED = ["contract_evaluations", "transformations_called", "aliasing_probes", "provenance_checks", "graph_arguments",
-            "networkx_arguments", "list_arguments", "chains", "calls_that_raised_compared"]
+            "networkx_arguments", "list_arguments", "chains", "calls_that_raised_compared", "long_chains", "nx_attribute_spellings"]
 CASE_TIMEOUT = {"quick": 300, "thorough": 1800}
 
 _contracted = {}
@@ -376,3 +376,65 @@ def workload(tier, seed):
         yield "families", {"rseed": seed * 100 + i}
     for i in range(2 if q else 8):
         yield "lists", {"rseed": seed * 100 + i}
+    for i in range(2 if q else 16):
+        yield "long_chains", {"rseed": seed * 100 + i}
+    yield "nx_attributes", {"rseed": seed}
+
+
+def case_long_chains(ctx, rseed):
+    """Chains of 11-25 cheap steps (arity-1 substitutions, flips, shuffles): numbering must stay 1..t."""
+    import cnfgen as g
+    r = ctx.rng("c19long", rseed)
+    steps = [("FlipPolarity", lambda F: g.FlipPolarity(F)), ("Shuffle", lambda F: g.Shuffle(F)),
+             ("OrSubstitution[1]", lambda F: g.OrSubstitution(F, 1)), ("XorSubstitution[1]", lambda F: g.XorSubstitution(F, 1)),
+             ("MajoritySubstitution[1]", lambda F: g.MajoritySubstitution(F, 1)), ("ExactlyOneSubstitution[1]", lambda F: g.ExactlyOneSubstitution(F, 1)),
+             ("AtLeastKSubstitution[1,1]", lambda F: g.AtLeastKSubstitution(F, 1, 1))]
+    for _ in range(4):
+        F = g.PigeonholePrinciple(2, 2)
+        F.header["note"] = "kept"
+        names = []
+        T = F
+        for t in range(r.randint(11, 25)):
+            label, fn = r.choice(steps)
+            hb = [(k, str(v)) for k, v in T.header.items()]
+            random.seed(r.randint(0, 10 ** 6))
+            st, T2 = checked_call(ctx, label, fn, T)
+            ctx.count("transformations_called")
+            if st == "exc":
+                ctx.violation("%s:raises:%s" % (label, type(T2).__name__), "%s at step %d raised %r" % (label, t + 1, T2))
+                break
+            header_check(ctx, label + "[long chain]", hb, T2, t)
+            names.append(label)
+            T = T2
+        ctx.count("chains")
+        ctx.count("long_chains")
+        ctx.judged(("long-chain", tuple(names)), nontrivial=True, sample={"chain_length": len(names), "last_header_keys": list(T.header.keys())[-3:]})
+
+
+def case_nx_attributes(ctx, rseed):
+    """networkx bipartite graphs whose 'bipartite' attribute is spelled as int, str or bool (what file readers produce)."""
+    import networkx
+    import cnfgen as g
+    from cnfgen.formula.cnf import CNF
+    from cnfgen.graphs import BipartiteGraph
+    r = ctx.rng("c19nx", rseed)
+    for spelling in ("int", "str", "bool"):
+        conv = {"int": int, "str": str, "bool": bool}[spelling]
+        X = networkx.Graph(name="spelled " + spelling)
+        X.add_nodes_from(["a", "b", "c"], bipartite=conv(0))
+        X.add_nodes_from(["x", "y"], bipartite=conv(1))
+        X.add_edges_from([("a", "x"), ("b", "x"), ("b", "y"), ("c", "y")])
+        F = g.PigeonholePrinciple(2, 2)
+        calls = [("GraphPigeonholePrinciple", g.GraphPigeonholePrinciple, (X,), {}),
+                 ("SubsetCardinalityFormula", g.SubsetCardinalityFormula, (X,), {}),
+                 ("BipartiteGraph.normalize", BipartiteGraph.normalize, (X,), {}),
+                 ("BipartiteGraph.from_networkx", BipartiteGraph.from_networkx, (X,), {})]
+        for label, fn, a, kw in calls:
+            lab = "%s(networkx graph, bipartite attribute as %s)" % (label, spelling)
+            st, res = checked_call(ctx, lab, fn, *a, **kw)
+            ctx.count("graph_arguments")
+            ctx.count("networkx_arguments")
+            ctx.count("nx_attribute_spellings")
+            if st == "exc" and spelling != "bool":
+                ctx.violation("%s:raises:%s" % (lab, type(res).__name__), "%s raised %r" % (lab, res))
+            ctx.judged(("nx-attr", label, spelling), nontrivial=True, sample={"call": lab})
